@@ -1,4 +1,6 @@
-import GB.C04.Frame
+import GB.C04.Refine
+import GB.C04.WF
+import GB.C04.B64
 /-
   C04 — transcoded requests populate the gRPC message per the http.proto binding rules.
 
@@ -428,4 +430,281 @@ example : parseBytes [65, 81, 73, 68] = some [1, 2, 3]                       -- 
     ∧ parseBytes [65, 81] = none                                              -- "AQ" (padding missing)
     ∧ parseBytes [65, 82, 61, 61] = some [1]                                  -- "AR==" (non-zero trailing bits)
     ∧ parseBytes [] = some [] := by
+  decide
+
+/-! ## no model-input fault on well-formed inputs -/
+
+/-- `wfInputs` (GB/C04/WF.lean, executable; the driver evaluates it on every case and answers BAD when it is
+    false): every message/enum reference of the schema and of the root resolves inside the schema, map key
+    kinds are protobuf's, and the oracle table answers — for every text of the request (path-variable values,
+    query values, `key[sub]` sub keys) and every float/double/message-typed field — with a result of the right
+    shape. On such inputs the model never answers `fault` … -/
+theorem C04_no_fault (sch : Schema) (orc : Oracle) (root : MsgDesc) (bd : Binding) (dec : Dec) (rq : Request)
+    (h : wfInputs sch orc root rq = true) : transcode sch orc root bd dec rq ≠ .error .fault :=
+  transcodeWith_noFault h
+
+/-- … nor on any message of a stream … -/
+theorem C04_no_fault_stream (sch : Schema) (orc : Oracle) (root : MsgDesc) (bd : Binding) (rq : Request) (decs : List Dec)
+    (h : wfInputs sch orc root rq = true) : ∀ r ∈ streamTranscode sch orc root bd rq decs, r ≠ .error .fault := by
+  rw [C04_stream]
+  intro r hr
+  simp only [List.mem_map] at hr
+  obtain ⟨d, _, rfl⟩ := hr
+  exact transcodeWith_noFault h
+
+/-- … so `C04_errors` holds without the fault alternative: InvalidArgument, or Internal for a bad binding,
+    or the end-of-stream of a stream. -/
+theorem C04_errors_wf (sch : Schema) (orc : Oracle) (root : MsgDesc) (bd : Binding) (dec : Dec) (rq : Request) (e : Err)
+    (hwf : wfInputs sch orc root rq = true) (h : transcode sch orc root bd dec rq = .error e) :
+    e = .invalidArgument ∨ (e = .internal ∧ BadBinding sch root bd) ∨ (e = .eof ∧ dec = .eof) := by
+  rcases C04_errors sch orc root bd dec rq e h with h1 | h1 | h1 | h1
+  · exact Or.inl h1
+  · exact Or.inr (Or.inl h1)
+  · exact Or.inr (Or.inr h1)
+  · subst h1; exact absurd h (C04_no_fault sch orc root bd dec rq hwf)
+
+/-- the predicate is satisfiable (and decidable): the example schema with a request -/
+example : wfInputs exSchema exNoOracle exRoot ⟨[([97], [55])], [([98], [[121]])]⟩ = true := by decide
+
+/-! ## refinement: the request message is the body with the parsed parameters written over it
+
+  `allCalls` lists what the request asks to write, in order: every path variable, then (unless body = "*")
+  every query key that the filter (body path, path-variable names) lets through, with its normalised field
+  path. Hypotheses that remain, and why each is necessary:
+   * `srcsOf … = some srcs` — every call either names no field at all (first element unknown: ignored by the
+     code) or names, by proto/JSON names through singular messages, a field such that no field on the way is a
+     member of a oneof (real or proto3-optional), and carries at least one value. Necessary: inside oneofs the
+     outcome is not a function of the request (`C04_oneof_order_dependent_witness`) or contradicts the per-field
+     rule (`C04_path_variable_over_body_optional_fails`, D4c); a key failing half-way leaves only empty sub-messages.
+   * `Unrelated srcs` — no two calls write fields one of which contains the other (in particular no field is
+     written twice). Necessary: otherwise the accepted message depends on Go map order
+     (`C04_query_spelling_order_dependent_fails`, D4d).
+  Nothing is assumed about kinds or cardinalities: scalar, enum, list, map, wrapper/well-known-type leaves alike
+  (`leafParse`), nor about the body. `lget` compares populated leaves (presence of empty sub-messages is not compared). -/
+
+/-- For every such request: (1) an accepted request yields exactly the body-stage message with every call's
+    parsed value written at its field (`applyWrite`: singular = replace, zero of an implicit-presence scalar =
+    clear, message = replace the sub-tree, list = append, map = set the entry) and nothing else changed;
+    (2) it is accepted iff every call's values parse; (3) otherwise it is rejected. -/
+theorem C04_refines (sch : Schema) (orc : Oracle) (root : MsgDesc) (bd : Binding) (dec : Dec) (rq : Request)
+    (srcs : List Src) (m0 : Msg)
+    (hs : srcsOf sch root (allCalls sch root bd rq) = some srcs) (hu : Unrelated srcs)
+    (hb : bodyStage sch root bd dec = .ok m0) :
+    (∀ m, transcode sch orc root bd dec rq = .ok m → StageSpec sch orc m0 srcs m)
+    ∧ ((∃ m, transcode sch orc root bd dec rq = .ok m) ↔ ∀ s ∈ srcs, ∃ w, leafParse sch orc s.f s.vals = .ok w)
+    ∧ ((∃ s ∈ srcs, ∃ e, leafParse sch orc s.f s.vals = .error e) → ∃ e, transcode sch orc root bd dec rq = .error e) := by
+  have heq := transcode_eq sch orc root bd dec rq
+  simp only [hb] at heq
+  refine ⟨?_, ⟨?_, ?_⟩, ?_⟩
+  · intro m hm
+    rw [heq] at hm
+    exact popStage_ok hs hu hm
+  · rintro ⟨m, hm⟩ s hsm
+    rw [heq] at hm
+    obtain ⟨w, hw, _⟩ := (popStage_ok hs hu hm).1 s hsm
+    exact ⟨w, hw⟩
+  · intro hall
+    rw [heq]
+    exact popStage_succeeds hs hall
+  · intro hex
+    rw [heq]
+    exact popStage_fails hs hex
+
+/-- when the body stage fails, so does the request, with the same error (bad binding ⇒ Internal, undecodable body ⇒ InvalidArgument) -/
+theorem C04_refines_body_error (sch : Schema) (orc : Oracle) (root : MsgDesc) (bd : Binding) (dec : Dec) (rq : Request) (e : Err)
+    (hb : bodyStage sch root bd dec = .error e) : transcode sch orc root bd dec rq = .error e := by
+  rw [transcode_eq, hb]
+
+/-- non-vacuity of `C04_refines`: body "*" = {a: 1, b: "x"}, path variable a=7, query b=y: one call (a), accepted,
+    a = 7 written over the body, b kept. -/
+example :
+    srcsOf exSchema exRoot (allCalls exSchema exRoot ⟨wildcard⟩ ⟨[([97], [55])], [([98], [[121]])]⟩) = some [⟨[[97]], exFa, [[55]]⟩]
+    ∧ leafParse exSchema exNoOracle exFa [[55]] = .ok (.scalar (.int 7) true) := by
+  decide
+
+/-! ## the per-field clauses for every kind of leaf (list, map, wrapper / well-known type, scalar) -/
+
+/-- Clause 1 for any leaf: a path variable naming (through fields outside oneofs) a field of ANY kind and
+    cardinality writes its parsed value over whatever the body and the earlier path variables produced (`ma`),
+    and that stays: everything at and below the field is as `applyWrite ma p w` says. -/
+theorem C04_path_variable_wins_any_leaf_partial (sch : Schema) (orc : Oracle) (root : MsgDesc) (bd : Binding) (dec : Dec)
+    (pp1 pp2 : List (Bytes × Bytes)) (k t : Bytes) (q : List (Bytes × List Bytes)) (m : Msg)
+    (p : Path) (fs : List Field) (f : Field)
+    (hres : resolveGo sch false root (splitDot k) = some (p, fs)) (hfree : oneofFree fs = true) (hlast : fs.getLast? = some f)
+    (hpp : PathsAvoid sch root p pp2)
+    (hq : QueryAvoids sch root (filterSeqs bd (pp1 ++ (k, t) :: pp2)) p q)
+    (h : transcode sch orc root bd dec ⟨pp1 ++ (k, t) :: pp2, q⟩ = .ok m) :
+    ∃ m0 ma w, bodyStage sch root bd dec = .ok m0 ∧ pathStage sch orc root m0 pp1 = .ok ma
+      ∧ leafParse sch orc f [t] = .ok w
+      ∧ ∀ x, p.isPrefixOf x = true → lget m x = lget (applyWrite ma p w) x := by
+  unfold transcode transcodeWith at h
+  simp only at h
+  cases hb : bodyStage sch root bd dec with
+  | error e => simp [hb] at h
+  | ok m0 =>
+    simp only [hb] at h
+    cases hp : pathStage sch orc root m0 (pp1 ++ (k, t) :: pp2) with
+    | error e => simp [hp] at h
+    | ok m1 =>
+      simp only [hp] at h
+      obtain ⟨ma, ha, h3⟩ := pathStage_append hp
+      simp only [pathStage] at h3
+      cases hc : populateFieldValueFromPath sch orc root ma (splitDot k) [t] with
+      | error e => simp [hc] at h3
+      | ok mb =>
+        simp only [hc] at h3
+        have hgo := populate_ok hc
+        obtain ⟨hne, hnw⟩ := populateGo_nf (orc := orc) (pre := []) (m := ma) (vals := [t]) hres hfree hlast
+        cases hw : leafParse sch orc f [t] with
+        | error e => rw [hne e hw] at hgo; simp at hgo
+        | ok w =>
+          obtain ⟨m1', hm1', hrel⟩ := hnw w hw
+          rw [hm1'] at hgo
+          simp only [List.nil_append, Except.ok.injEq] at hgo hrel
+          refine ⟨m0, ma, w, rfl, ha, rfl, ?_⟩
+          intro x hx
+          have hppx : PathsAvoid sch root x pp2 := by
+            intro kv hkv
+            obtain ⟨p', fs', h1, h2, h3'⟩ := hpp kv hkv
+            exact ⟨p', fs', h1, h2, under_unrelated h3' hx⟩
+          have hqx : QueryAvoids sch root (filterSeqs bd (pp1 ++ (k, t) :: pp2)) x q := by
+            intro kv hkv
+            rcases hq kv hkv with hcv | ⟨p', fs', h1, h2, h3'⟩
+            · exact Or.inl hcv
+            · exact Or.inr ⟨p', fs', h1, h2, under_unrelated h3' hx⟩
+          have hf1 := pathStage_frame hppx h3
+          have hval : Msg.get mb x = Msg.get (applyWrite ma p w) x := by
+            rw [← hgo]
+            exact applyWrite_congr m1' ma p w (fun q' hq' => hrel.under q' hq') x hx
+          apply lget_congr
+          split at h
+          · simp at h; subst h; rw [hf1, hval]
+          · rw [queryStage_frame hqx h, hf1, hval]
+
+/-- Clause 3 for any leaf: an unfiltered query key (body ≠ "*", `key[sub]` syntax included) naming a field of ANY
+    kind and cardinality outside oneofs writes its parsed values over the message the earlier stages and keys
+    produced (`ma`); later keys that do not overlap it leave that in place. -/
+theorem C04_query_value_any_leaf_partial (sch : Schema) (orc : Oracle) (root : MsgDesc) (bd : Binding) (dec : Dec)
+    (pp : List (Bytes × Bytes)) (q1 q2 : List (Bytes × List Bytes)) (k : Bytes) (vs : List Bytes) (m : Msg)
+    (p : Path) (fs : List Field) (f : Field)
+    (hstar : bd.bodyPath ≠ wildcard)
+    (hnc : covered sch root (filterSeqs bd pp) (k, vs) = false)
+    (hres : resolveGo sch false root (normalizeFieldPath sch root (splitDot (queryKey k vs).1)) = some (p, fs))
+    (hfree : oneofFree fs = true) (hlast : fs.getLast? = some f)
+    (hq : QueryAvoids sch root (filterSeqs bd pp) p q2)
+    (h : transcode sch orc root bd dec ⟨pp, q1 ++ (k, vs) :: q2⟩ = .ok m) :
+    ∃ ma w, leafParse sch orc f (queryKey k vs).2 = .ok w
+      ∧ ∀ x, p.isPrefixOf x = true → lget m x = lget (applyWrite ma p w) x := by
+  unfold transcode transcodeWith at h
+  simp only at h
+  cases hb : bodyStage sch root bd dec with
+  | error e => simp [hb] at h
+  | ok m0 =>
+    simp only [hb] at h
+    cases hp : pathStage sch orc root m0 pp with
+    | error e => simp [hp] at h
+    | ok m1 =>
+      have hsq : shouldParseQuery bd = true := by simp [shouldParseQuery, hstar]
+      simp only [hp, hsq, Bool.not_true, Bool.false_eq_true, if_false] at h
+      obtain ⟨ma, _, h3⟩ := queryStage_append h
+      simp only [queryStage] at h3
+      cases hc : queryOne sch orc root (filterSeqs bd pp) ma k vs with
+      | error e => simp [hc] at h3
+      | ok mb =>
+        simp only [hc] at h3
+        rw [queryOne_uncovered hnc] at hc
+        have hgo := populate_ok hc
+        obtain ⟨hne, hnw⟩ := populateGo_nf (orc := orc) (pre := []) (m := ma) (vals := (queryKey k vs).2) hres hfree hlast
+        cases hw : leafParse sch orc f (queryKey k vs).2 with
+        | error e => rw [hne e hw] at hgo; simp at hgo
+        | ok w =>
+          obtain ⟨m1', hm1', hrel⟩ := hnw w hw
+          rw [hm1'] at hgo
+          simp only [List.nil_append, Except.ok.injEq] at hgo hrel
+          refine ⟨ma, w, rfl, ?_⟩
+          intro x hx
+          have hqx : QueryAvoids sch root (filterSeqs bd pp) x q2 := by
+            intro kv hkv
+            rcases hq kv hkv with hcv | ⟨p', fs', h1, h2, h3'⟩
+            · exact Or.inl hcv
+            · exact Or.inr ⟨p', fs', h1, h2, under_unrelated h3' hx⟩
+          apply lget_congr
+          rw [queryStage_frame hqx h3, ← hgo]
+          exact applyWrite_congr m1' ma p w (fun q' hq' => hrel.under q' hq') x hx
+
+/-! ## Go map iteration order -/
+
+/-- Where `C04_refines` applies, the order in which the Go runtime iterates `PathParams` and `url.Values`
+    does not matter: for any permutation of the path variables and of the query keys the request is accepted
+    or rejected alike, and the accepted messages have the same populated leaves. -/
+theorem C04_order_independent (sch : Schema) (orc : Oracle) (root : MsgDesc) (bd : Binding) (dec : Dec)
+    (pp pp' : List (Bytes × Bytes)) (q q' : List (Bytes × List Bytes)) (srcs : List Src)
+    (hpp : pp.Perm pp') (hq : q.Perm q')
+    (hs : srcsOf sch root (allCalls sch root bd ⟨pp, q⟩) = some srcs) (hu : Unrelated srcs) :
+    (∀ m m', transcode sch orc root bd dec ⟨pp, q⟩ = .ok m → transcode sch orc root bd dec ⟨pp', q'⟩ = .ok m' →
+        ∀ x, lget m x = lget m' x)
+    ∧ ((∃ m, transcode sch orc root bd dec ⟨pp, q⟩ = .ok m) ↔ (∃ m', transcode sch orc root bd dec ⟨pp', q'⟩ = .ok m')) := by
+  have hperm := allCalls_perm (sch := sch) (root := root) (bd := bd) hpp hq
+  rw [transcode_eq, transcode_eq]
+  cases hb : bodyStage sch root bd dec with
+  | error e => simp
+  | ok m0 =>
+    simp only
+    exact popStage_perm hperm hs hu
+
+/-- OBSERVATION (kernel-checked witness; the property text is silent): with two path variables inside one oneof,
+    one of them reaching its member through a sub-message, acceptance depends on map order. Message
+    O { oneof o { S a = 1; int32 b = 2 } }, S { int32 x = 1 }: order [b=2, a.x=1] is ACCEPTED (walking to a.x
+    `Mutable`s `a`, which silently clears `b`; only the last field of a path is checked for "oneof already set"),
+    order [a.x=1, b=2] is REJECTED (InvalidArgument). Either way the request binds two members of one oneof. -/
+theorem C04_oneof_order_dependent_witness :
+    transcode exSchemaO exNoOracle exO ⟨[]⟩ .none ⟨[([98], [50]), ([97, 46, 120], [49])], []⟩
+      = .ok [([[97], [120]], .single (.int 1)), ([[97]], .present)]
+    ∧ transcode exSchemaO exNoOracle exO ⟨[]⟩ .none ⟨[([97, 46, 120], [49]), ([98], [50])], []⟩ = .error .invalidArgument := by
+  decide
+
+/-- KNOWN FINDING D4d (negative witness): two query keys that name the same field — its proto name and its
+    JSON name — are both applied, in Go map iteration order, so the ACCEPTED message differs from run to run:
+    J { int32 a_b = 1 [json_name="aB"] }, `?a_b=1&aB=2` gives a_b = 2 in one order and a_b = 1 in the other.
+    (`Unrelated` fails for this request, which is why `C04_order_independent` does not apply.) -/
+theorem C04_query_spelling_order_dependent_fails :
+    transcode exSchemaJ exNoOracle exJ ⟨[]⟩ .none ⟨[], [([97, 95, 98], [[49]]), ([97, 66], [[50]])]⟩
+      = .ok [([[97, 95, 98]], .single (.int 2))]
+    ∧ transcode exSchemaJ exNoOracle exJ ⟨[]⟩ .none ⟨[], [([97, 66], [[50]]), ([97, 95, 98], [[49]])]⟩
+      = .ok [([[97, 95, 98]], .single (.int 1))] := by
+  decide
+
+/-! ## base64 text of bytes fields -/
+
+/-- `gwquery.Bytes` decodes what both Go encoders produce: for every byte string b,
+    Bytes(StdEncoding.EncodeToString(b)) = b and Bytes(URLEncoding.EncodeToString(b)) = b
+    (`b64encode false` / `b64encode true` are the two padded encoders; the URL text is first tried with the
+    standard alphabet, which yields the same bytes or rejects it — `b64quanta_cross`). -/
+theorem C04_b64_roundtrip (url : Bool) (b : Bytes) : parseBytes (b64encode url b) = some b :=
+  parseBytes_encode url b
+
+/-- each alphabet's decoder inverts its own encoder -/
+theorem C04_b64_roundtrip_alphabet (url : Bool) (b : Bytes) : b64decode url (b64encode url b) = some b :=
+  b64decode_encode url b
+
+/-- accepted text consists of characters of ONE alphabet as coded — A–Z a–z 0–9 and `+ /` (standard, tried
+    first) or `- _` (URL) — besides `=` padding and the ignored `\r` `\n`; and the result is the standard
+    decoding if that succeeds, else the URL decoding. -/
+theorem C04_bytes_text (s b : Bytes) (h : parseBytes s = some b) :
+    (b64decode false s = some b ∧ ∀ c ∈ s, c = 10 ∨ c = 13 ∨ c = 61 ∨ (b64val false c).isSome = true)
+    ∨ (b64decode false s = none ∧ b64decode true s = some b ∧ ∀ c ∈ s, c = 10 ∨ c = 13 ∨ c = 61 ∨ (b64val true c).isSome = true) := by
+  unfold parseBytes at h
+  cases hs : b64decode false s with
+  | some x =>
+    simp [hs] at h; subst h
+    exact Or.inl ⟨rfl, b64decode_chars false s x hs⟩
+  | none =>
+    simp [hs] at h
+    exact Or.inr ⟨rfl, h, b64decode_chars true s b h⟩
+
+/-- the alphabets as coded: exactly 64 characters each, differing in the last two -/
+example : (List.range 256).filter (fun n => (b64val false (UInt8.ofNat n)).isSome) =
+      (List.range 256).filter (fun n => (65 ≤ n ∧ n ≤ 90) ∨ (97 ≤ n ∧ n ≤ 122) ∨ (48 ≤ n ∧ n ≤ 57) ∨ n = 43 ∨ n = 47)
+    ∧ (List.range 256).filter (fun n => (b64val true (UInt8.ofNat n)).isSome) =
+      (List.range 256).filter (fun n => (65 ≤ n ∧ n ≤ 90) ∨ (97 ≤ n ∧ n ≤ 122) ∨ (48 ≤ n ∧ n ≤ 57) ∨ n = 45 ∨ n = 95) := by
   decide
